@@ -156,6 +156,13 @@ func rawSleep(ns int64) {
 	syscall.RawSyscall(syscall.SYS_NANOSLEEP, uintptr(unsafe.Pointer(&ts)), 0, 0)
 }
 
+// blockSleep sleeps in nanosleep(2) as an ordinary (non-raw) system call: the thread is blocked in the kernel
+// and the Go scheduler takes its P back, so many sleeping threads do not starve the others.
+func blockSleep(ns int64) {
+	ts := syscall.Timespec{Nsec: ns}
+	syscall.Syscall(syscall.SYS_NANOSLEEP, uintptr(unsafe.Pointer(&ts)), 0, 0)
+}
+
 func (w *lworker) loop() {
 	for f := range w.ch {
 		f()
@@ -190,7 +197,7 @@ func startWorker(k int, kind string) *lworker {
 			}
 		case "sleep":
 			for atomic.LoadInt32(&lhLoaded) == 0 {
-				rawSleep(2e6)
+				blockSleep(3e6)
 			}
 		case "pipe":
 			var b [1]byte
@@ -201,7 +208,7 @@ func startWorker(k int, kind string) *lworker {
 				}
 			}
 			for atomic.LoadInt32(&lhLoaded) == 0 {
-				rawSleep(1e5)
+				blockSleep(2e5)
 			}
 		case "spawn":
 			for i := 0; atomic.LoadInt32(&lhLoaded) == 0 && i < 40; i++ {
@@ -210,10 +217,10 @@ func startWorker(k int, kind string) *lworker {
 					atomic.AddInt32(&lhParked, 1)
 					select {}
 				}()
-				rawSleep(5e5)
+				blockSleep(5e5)
 			}
 			for atomic.LoadInt32(&lhLoaded) == 0 {
-				rawSleep(1e6)
+				blockSleep(1e6)
 			}
 		}
 		if kind != "actor" {
@@ -346,7 +353,15 @@ func runOn(who string, step int, f func()) {
 			}
 		}
 		done := make(chan struct{})
-		go func() { f(); close(done) }()
+		go func() {
+			// the thread this goroutine finds itself on, and its state, right before the call
+			t := syscall.Gettid()
+			if s, fl, n, ok := readStatus(t); ok {
+				fmt.Fprintf(lhOut, "B %d %d %d %d %d\n", step, t, s, fl, n)
+			}
+			f()
+			close(done)
+		}()
 		<-done
 		seccomp.SchedPointVerif = nil
 	case strings.HasPrefix(who, "a"):
@@ -416,6 +431,7 @@ func loadhistChild() {
 			continue
 		}
 		fmt.Fprintf(lhOut, "S %d %s\n", step, strings.Join(f, " "))
+		lhOut.Flush() // if the operation kills the process, the report says which one it was
 		switch f[0] {
 		case "actor":
 			k, _ := strconv.Atoi(f[1])
@@ -508,6 +524,7 @@ func loadhistChild() {
 		}
 		flushCalls(step)
 		snapshot(step)
+		lhOut.Flush()
 	}
 	fmt.Fprintf(lhOut, "E\n")
 	lhOut.Flush()
